@@ -1,7 +1,8 @@
 /-
   PyodaModel.Text.Buckets — value accessors, parse buckets (`calculate_value`) and the pattern objects' `format` /
   `parse` for LocalTime (template midnight), LocalDate (ISO calendar, template 2000-01-01, two-digit-year
-  maximum 30) and Offset, on top of the generic engine.
+  maximum 30), Offset, LocalDateTime (any ISO template value; the combined bucket with the 24:00 roll-over;
+  patterns with embedded date / time parts), AnnualDate (any template) and Duration, on top of the generic engine.
   `calculate_value` is modelled as the code does it after the repairs of DESIGN.md section 7 (rows 5, 16).
 -/
 import PyodaModel.Text.Engine
@@ -198,6 +199,96 @@ def dtValue (tm : Tmpl) (used : Nat) (b : Bucket) : R (Option (Int × Int × Int
           | .ok (y', m', d') => .ok (some (y', m', d', t))
       else .ok (some (y, m, d, t))
 
+/-! ### LocalDateTime patterns with embedded date / time patterns -/
+
+/-- `_LocalDateParseBucket._calculate_value` with the embedded-date branch (after the ISO fast path test):
+    the fields were assigned from a parsed LocalDate -/
+def dateValueE (ty tmo td : Int) (used : Nat) (b : Bucket) : Option (Int × Int × Int) :=
+  if used ≠ (F.year ||| F.monthNum ||| F.dayOfMonth) ∧ hasAny used F.embeddedDate then
+    some (b .year, b .monthNum, b .dayOfMonth)
+  else dateValueT ty tmo td used b
+
+/-- `_LocalTimeParseBucket._calculate_value` with the embedded-time branch -/
+def timeValueE (tmpl : Int) (used : Nat) (b : Bucket) : Option Int :=
+  if used &&& F.allTimeExceptFraction ≠ (F.hours24 ||| F.minutes ||| F.seconds) ∧ hasAny used F.embeddedTime then
+    some (ltFromHmsn (b .hours24) (b .minutes) (b .seconds) (b .fraction))
+  else timeValue tmpl used b
+
+/-- `_combine_buckets` over the buckets of a pattern with embedded parts -/
+def dtValueE (tm : Tmpl) (used : Nat) (b : Bucket) : R (Option (Int × Int × Int × Int)) :=
+  let hour24 := decide (b .hours24 = 24)
+  let b' := if hour24 then b.set .hours24 0 else b
+  match dateValueE tm.y tm.m tm.d (used &&& F.allDate) b' with
+  | none => .ok none
+  | some (y, m, d) =>
+    match timeValueE tm.nod (used &&& F.allTime) b' with
+    | none => .ok none
+    | some t =>
+      if hour24 then
+        if t ≠ 0 then .ok none
+        else match plusOneDay y m d with
+          | .error .overflowError => .ok none
+          | .error e => .error e
+          | .ok (y', m', d') => .ok (some (y', m', d', t))
+      else .ok (some (y, m, d, t))
+
+/-- the format actions of the segments: plain steps see the whole value, an embedded pattern its date / time part
+    (`value_extractor`) -/
+def fmtSegs (cu : Culture) (used : Nat) (y m d nod : Int) : List Seg → Text → R Text
+  | [], buf => .ok buf
+  | .plain ss :: segs, buf =>
+    match formatSteps cu used (dtGetter y m d nod) ss buf with
+    | .error e => .error e
+    | .ok buf' => fmtSegs cu used y m d nod segs buf'
+  | .date c :: segs, buf =>
+    match formatSteps c.cu c.used (dateGetter y m d) c.steps buf with
+    | .error e => .error e
+    | .ok buf' => fmtSegs cu used y m d nod segs buf'
+  | .time c :: segs, buf =>
+    match formatSteps c.cu c.used (timeGetter nod) c.steps buf with
+    | .error e => .error e
+    | .ok buf' => fmtSegs cu used y m d nod segs buf'
+
+/-- the parse actions of the segments.  An embedded pattern runs `parse_partial` — its own steps on a bucket of its
+    own (template: the outer template's date / time) and its own `calculate_value` — and on success assigns the
+    outer bucket's fields from the value -/
+def parseSegs (tm : Tmpl) (cu : Culture) : List Seg → Text → Bucket → R (Option (Bucket × Text))
+  | [], l, b => .ok (some (b, l))
+  | .plain ss :: segs, l, b =>
+    match parseSteps cu ss l b with
+    | .error e => .error e
+    | .ok none => .ok none
+    | .ok (some (b', l')) => parseSegs tm cu segs l' b'
+  | .date c :: segs, l, b =>
+    match parseSteps c.cu c.steps l dateBucket0 with
+    | .error e => .error e
+    | .ok none => .ok none
+    | .ok (some (bi, l')) =>
+      match dateValueT tm.y tm.m tm.d c.used bi with
+      | none => .ok none
+      | some (y, m, d) => parseSegs tm cu segs l' (((b.set .year y).set .monthNum m).set .dayOfMonth d)
+  | .time c :: segs, l, b =>
+    match parseSteps c.cu c.steps l (timeBucket0 tm.nod) with
+    | .error e => .error e
+    | .ok none => .ok none
+    | .ok (some (bi, l')) =>
+      match timeValue tm.nod c.used bi with
+      | none => .ok none
+      | some t =>
+        parseSegs tm cu segs l' ((((b.set .hours24 (ltHour t)).set .minutes (ltMinute t)).set .seconds (ltSecond t)).set .fraction (ltNano t))
+
+/-- `__SteppedPattern.parse` for a LocalDateTime pattern with embedded parts -/
+def parseSegmented (tm : Tmpl) (cu : Culture) (used : Nat) (segs : List Seg) (l : Text) : R (Option (List Int)) :=
+  if l = [] then .ok none else
+  match parseSegs tm cu segs l (dtBucket0 tm) with
+  | .error e => .error e
+  | .ok none => .ok none
+  | .ok (some (b, rest)) =>
+    match dtValueE tm used b with
+    | .error e => .error e
+    | .ok none => .ok none
+    | .ok (some v) => if rest = [] then .ok (some [v.1, v.2.1, v.2.2.1, v.2.2.2]) else .ok none
+
 /-! ### AnnualDate -/
 
 def annualGetter (m d : Int) : Getter
@@ -322,6 +413,10 @@ def fmtPat (ty : PType) (v : List Int) (get : Getter) : Pat → R Text
       else if csharpMod s 60 = 0 then fmtPat ty v get b
       else fmtPat ty v get a
     | _, _ => .error .runtimeError
+  | .segmented cu used segs =>
+    match v with
+    | [y, m, d, nod] => fmtSegs cu used y m d nod segs []
+    | _ => .error .runtimeError
 end
 
 mutual
@@ -330,6 +425,10 @@ def parsePat (ty : PType) (l : Text) : Pat → R (Option (List Int))
   | .stepped c => parseCompiled ty c l
   | .zprefix p => if l = ['Z'] then .ok (some [0]) else parsePat ty l p
   | .composite ps => if l = [] then .ok none else parsePats ty l ps
+  | .segmented cu used segs =>
+    match ty with
+    | .datetime tm => parseSegmented tm cu used segs l
+    | _ => .error .runtimeError
 /-- composite: the first pattern that succeeds; every failure on a non-empty text continues -/
 def parsePats (ty : PType) (l : Text) : List Pat → R (Option (List Int))
   | [] => .ok none
